@@ -169,5 +169,180 @@ def run_case(ctx, k):
         dB.close()
 
 
+def make_async_manager(subs):
+    """AsyncPubSubManager over a list of asyncio queues: one subscription
+    per _listen() call."""
+    import asyncio
+    from socketio import async_pubsub_manager
+
+    class ASubMgr(async_pubsub_manager.AsyncPubSubManager):
+        name = 'asub'
+
+        def __init__(self):
+            super().__init__(channel='verif')
+            self.listeners = 0
+
+        async def _publish(self, data):
+            raw = pickle.dumps(data)
+            for q in list(subs):
+                q.put_nowait(raw)
+
+        async def _listen(self):
+            q = asyncio.Queue()
+            subs.append(q)
+            self.listeners += 1
+            while True:
+                item = await q.get()
+                if item is None:
+                    return
+                yield item
+    return ASubMgr()
+
+
+def run_clientless_case(ctx, k):
+    """A host that has no client yet uses the API first (emit with a callback
+    to a client of another host, plain emits, room operations, in a random
+    order), then gets its first client; afterwards every broadcast issued
+    anywhere reaches each client of the cluster exactly once and the callback
+    runs at most once."""
+    import asyncio
+    from vlib.vtime import VirtualLoop
+    rng = ctx.case_rng(7 * 10 ** 7 + 5 * 10 ** 6 + k)
+    kind = rng.choice(['sync', 'async'])
+    ser = rng.choice(['default', 'msgpack'])
+    w = {'part': 'clientless_host', 'case_index': k, 'kind': kind,
+         'serializer': ser}
+    broker = Broker()
+    subs = []
+    loop = None
+    if kind == 'async':
+        loop = VirtualLoop()
+        asyncio.set_event_loop(loop)
+        mA, mB = make_async_manager(subs), make_async_manager(subs)
+        dA = D.AsyncDrive(serializer=ser, client_manager=mA, loop=loop)
+        dB = D.AsyncDrive(serializer=ser, client_manager=mB, loop=loop)
+    else:
+        mA, mB = make_manager(broker), make_manager(broker)
+        dA = D.SyncDrive(serializer=ser, client_manager=mA)
+        dB = D.SyncDrive(serializer=ser, client_manager=mB)
+    fired = []
+    counts = {}
+
+    def scan(label, t):
+        for p in t.drain():
+            if p['type'] in (R.EVENT, R.BINARY_EVENT):
+                key = (label, p['data'][0])
+                counts[key] = counts.get(key, 0) + 1
+                if p['id'] is not None:
+                    t.send_packet(R.ACK, p['nsp'], p['id'], ['pong'])
+
+    def wait_for(pred, tx):
+        """Threads: poll (bounded); asyncio on the virtual loop: settled
+        already.  Returns False when the machine was too slow."""
+        t0 = time.time()
+        while True:
+            for label, t in tx:
+                scan(label, t)
+            if kind == 'async':
+                dA.join()
+                for label, t in tx:
+                    scan(label, t)
+                return pred()
+            if pred():
+                time.sleep(0.05)
+                for label, t in tx:
+                    scan(label, t)
+                return True
+            if time.time() - t0 > 5:
+                return False
+            time.sleep(0.003)
+    try:
+        tB = dB.open()
+        x = connect(dB, tB)
+        tx = [('x', tB)]
+        # what the clientless host does first
+        first = rng.sample(['emit_cb', 'emit', 'enter', 'close_room',
+                            'disconnect_unknown'], rng.choice([1, 2, 3]))
+        if 'emit_cb' not in first and rng.random() < 0.6:
+            first.insert(rng.randrange(len(first) + 1), 'emit_cb')
+        w['first_uses_of_the_clientless_host'] = first
+        expect_x = {}
+        for i, use in enumerate(first):
+            if use == 'emit_cb':
+                dA.api('emit', 'ping%d' % i, {'k': k}, to=x,
+                       callback=lambda *a: fired.append(a))
+                expect_x['ping%d' % i] = 1
+            elif use == 'emit':
+                dA.api('emit', 'hello%d' % i, {'k': k})
+                expect_x['hello%d' % i] = 1
+            elif use == 'enter':
+                dA.api('enter_room', x, 'lobby')
+            elif use == 'close_room':
+                dA.api('close_room', 'nobody')
+            else:
+                dA.api('disconnect', 'nosuchsid')
+            if not wait_for(lambda: all(
+                    counts.get(('x', e), 0) >= 1 for e in expect_x), tx):
+                ctx.count('clientless_cases_not_settled')
+                return
+        tA = dA.open()
+        y = connect(dA, tA)
+        tx.append(('y', tA))
+        tA.drain()
+        rounds = []
+        for j in range(rng.choice([1, 2])):
+            for src, d in rng.sample([('B', dB), ('A', dA)], 2):
+                ev = 'news%s%d' % (src, j)
+                d.api('emit', ev, {'k': k})
+                rounds.append(ev)
+                if not wait_for(lambda: all(
+                        counts.get((c, ev), 0) >= 1 for c in 'xy'), tx):
+                    ctx.count('clientless_cases_not_settled')
+                    return
+        w.update(x=x, y=y, deliveries={'%s:%s' % kk: v
+                                       for kk, v in sorted(counts.items())},
+                 listeners_on_the_clientless_host=mA.listeners,
+                 callback_invocations=len(fired))
+        ctx.count('clientless_host_cases')
+        ctx.count('clientless_host_deliveries_checked', sum(counts.values()))
+        errs = dA.errors() + dB.errors()
+        if errs:
+            w['errors'] = [{'exc': e.get('exc'), 'tb': (e.get('tb') or '')[
+                -1000:]} for e in errs[:3]]
+            ctx.violation(None, 'a host used the API before its first client '
+                          'arrived: exception (%s)' % errs[0].get('exc'), w)
+            return
+        bad = {kk: v for kk, v in counts.items() if v != 1}
+        if bad:
+            ctx.violation(None, 'a host used the API (%s) before its first '
+                          'client arrived; afterwards events were delivered '
+                          '%r (the host runs %d channel listeners)' % (
+                              ', '.join(first), sorted(
+                                  ('%s:%s' % kk, v) for kk, v in bad.items()),
+                              mA.listeners), w)
+            return
+        if len(fired) > 1:
+            ctx.violation(None, 'the callback of an emit issued by a host '
+                          'without clients ran %d times' % len(fired), w)
+            return
+        ctx.case(('clientless', kind, ser, tuple(first)), None)
+    finally:
+        broker.stop()
+        for q in subs:
+            q.put_nowait(None)
+        dA.close()
+        dB.close()
+        if loop is not None:
+            try:
+                for task in asyncio.all_tasks(loop):
+                    task.cancel()
+                loop.run_until_complete(asyncio.sleep(0))
+            except Exception:
+                pass
+            loop.close()
+
+
 def replay(ctx, w):
+    if w['witness'].get('part') == 'clientless_host':
+        return run_clientless_case(ctx, w['witness']['case_index'])
     run_case(ctx, w['witness']['case_index'])
